@@ -206,8 +206,8 @@ Section Driver.
         if negb ok then ret false else delete_inputs rest
     end.
 
-  (** result of [merge] when os.Open of an input fails.  main.go: `return "", nil` *)
-  Definition merge_open_failed : res := ROk None.
+  (** result of [merge] when os.Open of an input fails.  main.go: `return "", err` (before the C35 fix: `return "", nil`) *)
+  Definition merge_open_failed : res := RErr.
 
   Definition merge_prog (names : list zname) : M res :=
     doM o <- open_all names ;;
@@ -252,8 +252,8 @@ Section Driver.
         ret (ok && ok')
     end.
 
-  (** result of Explode when some rename failed.  merge.go: only `log.Printf`, then `return nil` *)
-  Definition explode_rename_failed : res := ROk None.
+  (** result of Explode when some rename failed.  merge.go: `return renameErr` (before the C35 fix: only logged, `return nil`) *)
+  Definition explode_rename_failed : res := RErr.
 
   Definition explode_prog (c : zname) : M res :=
     doM ok <- exec (OOpen (PZ c)) CGarbage ;;
